@@ -912,6 +912,50 @@ def variant_repaired():
     return "operator=(const Variant& other)" in h and "(Element*)(newData + 1)" in h
 
 
+ESCAPABLE = [b"&", b'"', b"'", b"<", b">", b"\n", b"\r"]
+
+
+def capacity_ops(rng, quick):
+    """escapeString writes through a raw pointer into a String whose capacity it manages itself (len+200 at the
+    start, then `reserve` at every escape, capacities rounded to 4k+3): values with many escapes, swept across
+    those boundaries — runs of 1..131 of each escapable character (escaped lengths up to ~520..790, every residue
+    mod 4) with plain tails of 0..3 characters and plain heads, as text, as attribute value, through esc, tostr
+    and the rt round trip; plus long random values dense in escapable characters."""
+    ops = []
+    vals = []
+    for ch in ESCAPABLE:
+        for n in range(1, 132):
+            for tail in range(4):
+                vals.append(ch * n + b"x" * tail)
+    for ch in ESCAPABLE:                              # plain head: the initial slack is len+200 whatever the head is
+        for head in (1, 2, 3, 7, 60, 199, 200, 201):
+            for n in (33, 34, 40, 41, 49, 50, 51, 52, 53, 66, 67, 68, 100, 101):
+                vals.append(b"y" * head + ch * n + b"x" * rng.randrange(4))
+    for i, v in enumerate(vals):
+        h = hx(v)
+        ops.append(f"esc 1 {h}")
+        if v.strip(WSB):
+            ops.append(f"esc 0 {h}")
+            ops.append(f"rt (61,t{v.hex()})")
+        ops.append(f"rt (61@62={v.hex()})")
+        if i % 4 == 0:
+            ops.append(f"tostr (61@62={v.hex()},t78{v.hex()})")
+    dense = [b"&", b'"', b"'", b"<", b">", b"&", b'"', b"\n", b"\r", b"a", b"1", b";", b" ", b"\xc3\xa9"]
+    for _ in range(2500 if quick else 25000):
+        n = rng.choice([30, 45, 60, 80, 120, 200, 300])
+        v = b"".join(rng.choice(dense) for _ in range(n + rng.randrange(8)))
+        k = rng.random()
+        if k < 0.3:
+            ops.append(f"esc {rng.randrange(2)} {hx(v)}")
+        elif k < 0.6:
+            ops.append(f"rt (61@6b={v.hex()}@62={rnd_value(rng).hex()})")
+        elif k < 0.8:
+            ops.append(f"rt (61,t78{v.hex()},(62@63={v[:70].hex()}),t79{v[::-1].hex()})")
+        else:
+            ops.append(f"tostr (61@6b={v.hex()},t78{v.hex()})")
+    return ops
+
+
 def chunks(ops, n):
     return [ops[i:i + n] for i in range(0, len(ops), n)]
 
@@ -999,11 +1043,17 @@ def histories_for(ctx):
     counts["esc/unesc ops"] = len(eops)
     hs += chunks(eops, 8)
 
+    cops = capacity_ops(rng, quick)
+    counts["long values across the String capacity boundaries (esc/rt/tostr)"] = len(cops)
+    hs += chunks(cops, 6)
+
     ctx.cov["rule"] = (f"corpus ({ncorpus}) + regression list + exhaustive small scope + type-directed random documents rendered with "
                        "comments / processing instructions / both quote kinds / CR LF TAB white space / entity and numeric references / "
                        "stray ampersands / duplicate attributes (half of them inside real XML so that xml.etree applies) + "
                        "1-3 byte mutations and all prefixes of such documents + random element trees (depth <= 4, chains of depth 200, "
-                       "one document of depth 1000; 1 in 5 violating the round-trip preconditions) for tostr/rt/copy + esc/unesc on all "
+                       "one document of depth 1000; 1 in 5 violating the round-trip preconditions) for tostr/rt/copy + long values with many escapes swept across the capacity "
+                       "boundaries of escapeString's buffer (runs of 1..131 of each escapable byte, plain tails 0..3, plain heads, dense random "
+                       "values of 30..300 bytes; as text and as attribute value; esc, tostr, rt) + esc/unesc on all "
                        "strings of length <= 3 (esc: 2) over 12 symbols and random strings; counts: "
                        + ", ".join(f"{k}={v}" for k, v in counts.items())
                        + "; distinct_nontrivial = distinct (op kind, observation) pairs with a payload of >= 4 bytes")
